@@ -2,6 +2,7 @@ package props
 
 import (
 	"fmt"
+	"net/url"
 	"strings"
 	"time"
 
@@ -26,7 +27,9 @@ func runC06(c *mon.Ctx) {
 			continue
 		}
 		r := cs.Rand()
-		cfgAud := []string{Audience, Audience + "/", ""}[k%3]
+		// configured audiences incl. ones holding characters that list-, pattern- or URL-minded code might interpret
+		cfgAuds := []string{Audience, Audience + "/", "", Audience + "?tenants=blue,green", "urn:sp:a;urn:sp:b", "https://sp.example.test/aud one two", "https://sp.example.test/*", Audience, ",", "https://sp.example.test/a|https://sp.example.test/b", Audience + "#frag", "https://SP.example.test/%61udience"}
+		cfgAud := cfgAuds[k%len(cfgAuds)]
 		audOf := func(kind int) string {
 			switch kind {
 			case 0:
@@ -47,6 +50,19 @@ func runC06(c *mon.Ctx) {
 				return "x"
 			case 5:
 				return "https://other.example.test/aud"
+			case 7:
+				// one piece of the configured value, were it read as a list
+				if ps := strings.FieldsFunc(cfgAud, func(c rune) bool { return strings.ContainsRune(",; |", c) }); len(ps) > 1 {
+					return ps[r.IntN(len(ps))]
+				}
+				return strings.ToLower(cfgAud)
+			case 8:
+				return cfgAud + pick(r, []string{",", ";", " ", "|"}) + "https://other.example.test/aud"
+			case 9:
+				if u, err := url.QueryUnescape(cfgAud); err == nil && u != cfgAud {
+					return u
+				}
+				return strings.Replace(cfgAud, "*", "anything", 1)
 			}
 			return ""
 		}
@@ -59,7 +75,7 @@ func runC06(c *mon.Ctx) {
 			var auds []string
 			matched := false
 			for j := r.IntN(5); j > 0; j-- {
-				kind := r.IntN(7)
+				kind := r.IntN(10)
 				if r.IntN(3) == 0 {
 					kind = 0
 				}
@@ -90,6 +106,9 @@ func runC06(c *mon.Ctx) {
 			window = "ends-now"
 		}
 		a0.Cond.OneTimeUse = r.IntN(2) == 0
+		if r.IntN(5) == 0 {
+			a0.Authn = nil // an assertion without an AuthnStatement still has its conditions summarised
+		}
 		a0.Cond.Proxy = nil
 		if r.IntN(2) == 0 {
 			p := &sim.Proxy{}
@@ -105,7 +124,7 @@ func runC06(c *mon.Ctx) {
 				p.Count = sim.S("2147483647")
 			}
 			for j := r.IntN(4); j > 0; j-- {
-				p.Audiences = append(p.Audiences, audOf(r.IntN(7)))
+				p.Audiences = append(p.Audiences, audOf(r.IntN(10)))
 			}
 			a0.Cond.Proxy = p
 		}
